@@ -11,3 +11,4 @@ pub mod judge;
 pub mod refsem;
 pub mod run;
 pub mod stdlib;
+pub mod oop;
